@@ -642,6 +642,13 @@ def expr_tree(draw):
         ex = ["Sum", [ex, [draw(st.sampled_from(("DotWildcard", "StarWildcard"))), nm()]]]
     elif c == 8:
         ex = ["Product", [["Var", nm()], ex, ["Var", nm()]]]
+    elif c in (9, 10):
+        # the same composite sub-term several times: one object when the case is built
+        # "shared", separate equal objects in its twin
+        ex = draw(st.sampled_from((
+            ["Product", [ex, ["Power", ex, ["Var", nm()]]]],
+            ["Sum", [ex, ["Call", ["Var", nm()], [ex]], ex]],
+            ["If", ["Comparison", ex, "<", ["Var", nm()]], ex, sm()])))
     if ex[0] in ("Const", "Tuple", "List", "NpArray"):
         ex = ["Sum", [ex, ["Var", nm()]]]     # the pickled root is an expression node
     return ex
@@ -698,12 +705,25 @@ def user_object(draw):
         if kind == "B" and root == "Expression" and not any(
                 lv["kind"] == "D" for lv in levels):
             kind = "L" if levels else "D"
+        if kind == "L" and "serial" in used:
+            # the init-args protocol carries exactly the constructor arguments: a legacy
+            # class below a class with post-init state is not a supported shape
+            kind = "B"
         flds = [] if kind == "B" else [
             f for f in draw(st.permutations(FIELD_POOL)) if f not in used][
             :draw(st.integers(0, 2))]
         used.update(flds)
         mm = ROOT_METHOD[root] if kind == "D" and draw(st.booleans()) else None
-        levels.append({"kind": kind, "fields": flds, "mapper_method": mm})
+        lvl = {"kind": kind, "fields": flds, "mapper_method": mm}
+        if kind == "D" and "serial" not in used and draw(st.integers(0, 3)) == 0:
+            # a field(init=False) member that __post_init__ fills in: part of the
+            # node's state, equality and hash like any other field
+            lvl["noinit"] = ["serial"]
+            used.add("serial")
+        if kind == "D" and root == "Expression" and not levels and draw(
+                st.integers(0, 4)) == 0:
+            lvl["init"] = False       # @expr_dataclass(init=False), own constructor
+        levels.append(lvl)
     hier = {"root": root, "levels": levels,
             "tag": draw(st.sampled_from(("MyNode", "HTTPNode2D", "Tagged")))}
     allf = list(usertypes.ROOTS[root][1]) + [f for lv in levels for f in lv["fields"]]
